@@ -356,37 +356,95 @@ var rR4 = RuleRef{Name: "R4", Doc: "allocation sizes derived from an integer par
 					if _, isC := sz.(*ssa.Const); isC {
 						continue
 					}
-					if !derivesFromParse(sz) && !derivesFromField(sz) {
+					if !derivesFromParse(sz) && !derivesFromField(sz) && !c.derivesFromParsedParam(sz, fn) {
 						continue
 					}
 					n++
 					if p == nil {
 						p = c.newProver(fn)
 					}
-					// every client-controlled integer that contributes to the size is bounded above at the allocation;
-					// lengths of existing objects and constants are fine; anything else is undecided
+					// the size is bounded above at the allocation: what is added is bounded above, what is subtracted is bounded
+					// below (end-start+1 is small only if start cannot be hugely negative); lengths of existing objects and
+					// constants are fine; a client-controlled integer needs a bound the prover can show here
 					bounded := true
-					var walk func(v ssa.Value, d int)
-					seenV := map[ssa.Value]bool{}
-					walk = func(v ssa.Value, d int) {
-						if seenV[v] || !bounded {
+					// sizes of existing objects read in this function: len()/Len() results and loads of a field called Len
+					var sizes []ssa.Value
+					for _, bb := range fn.Blocks {
+						for _, ii := range bb.Instrs {
+							switch y := ii.(type) {
+							case *ssa.UnOp:
+								if fa, ok := y.X.(*ssa.FieldAddr); ok && y.Op == token.MUL && fieldName(fa) == "Len" {
+									sizes = append(sizes, y)
+								}
+							case *ssa.Call:
+								if bi, ok := y.Call.Value.(*ssa.Builtin); ok && bi.Name() == "len" {
+									sizes = append(sizes, y)
+								} else if cf := y.Call.StaticCallee(); cf != nil && cf.Name() == "Len" {
+									sizes = append(sizes, y)
+								}
+							}
+						}
+					}
+					proveUpper := func(v ssa.Value) bool {
+						if p.ProveLE(p.lin(v), lt{"0", 0}, 1<<31, ms) {
+							return true
+						}
+						for _, sv := range sizes {
+							if p.ProveLE(p.lin(v), p.lin(sv), 0, ms) {
+								return true
+							}
+						}
+						return false
+					}
+					proveLower := func(v ssa.Value) bool {
+						return p.ProveLE(lt{"0", 0}, p.lin(v), 1<<31, ms)
+					}
+					isSize := func(v ssa.Value) bool {
+						switch x := v.(type) {
+						case *ssa.Call:
+							if bi, ok := x.Call.Value.(*ssa.Builtin); ok && (bi.Name() == "len" || bi.Name() == "cap" || bi.Name() == "min") {
+								return true
+							}
+							if cf := x.Call.StaticCallee(); cf != nil && cf.Name() == "Len" {
+								return true
+							}
+						case *ssa.UnOp:
+							if fa, ok := x.X.(*ssa.FieldAddr); ok && x.Op == token.MUL && fieldName(fa) == "Len" {
+								return true
+							}
+						}
+						return false
+					}
+					var walk func(v ssa.Value, d int, upper bool)
+					seenV := map[[2]any]bool{}
+					walk = func(v ssa.Value, d int, upper bool) {
+						k := [2]any{v, upper}
+						if seenV[k] || !bounded {
 							return
 						}
-						seenV[v] = true
+						seenV[k] = true
 						if d > 10 {
 							bounded = false
 							return
 						}
+						if _, isC := v.(*ssa.Const); isC || isSize(v) {
+							return
+						}
+						if (upper && proveUpper(v)) || (!upper && proveLower(v)) {
+							return
+						}
 						switch x := v.(type) {
-						case *ssa.Const:
 						case *ssa.BinOp:
 							switch x.Op {
-							case token.ADD, token.SUB:
-								walk(x.X, d+1)
-								walk(x.Y, d+1)
+							case token.ADD:
+								walk(x.X, d+1, upper)
+								walk(x.Y, d+1, upper)
+							case token.SUB:
+								walk(x.X, d+1, upper)
+								walk(x.Y, d+1, !upper)
 							case token.MUL:
-								if _, isC := x.Y.(*ssa.Const); isC {
-									walk(x.X, d+1)
+								if k, isC := constInt(x.Y); isC && k >= 0 {
+									walk(x.X, d+1, upper)
 								} else {
 									bounded = false
 								}
@@ -395,26 +453,15 @@ var rR4 = RuleRef{Name: "R4", Doc: "allocation sizes derived from an integer par
 							}
 						case *ssa.Phi:
 							for _, e := range x.Edges {
-								walk(e, d+1)
+								walk(e, d+1, upper)
 							}
 						case *ssa.Convert:
-							walk(x.X, d+1)
-						case *ssa.Call:
-							if bi, ok := x.Call.Value.(*ssa.Builtin); ok && (bi.Name() == "len" || bi.Name() == "cap" || bi.Name() == "min") {
-								return
-							}
-							if cf := x.Call.StaticCallee(); cf != nil && (cf.Name() == "Len") {
-								return // size of an existing container
-							}
-							bounded = false
+							walk(x.X, d+1, upper)
 						default:
-							// a parsed integer / parser state / parameter: needs a constant upper bound here
-							if !p.ProveLE(p.lin(v), lt{"0", 0}, 1<<31, ms) {
-								bounded = false
-							}
+							bounded = false
 						}
 					}
-					walk(sz, 0)
+					walk(sz, 0, true)
 					ord++
 					c.Add("R4", fnName(fn), fmt.Sprintf("allocation size %s bounded#%d", canon(sz), ord), ms.Pos(), bounded, "make() sized by a client-controlled integer without a dominating upper bound")
 				}
@@ -1002,6 +1049,46 @@ var rR12s = RuleRef{Name: "R12s", Doc: "sibling agreement on the WAL error proto
 		}, nil)
 	}
 	c.Add("R12s", fnName(fn), "a torn tail is repaired (wal.Repair) and the WAL is read again", fn.Pos(), repair != nil && retry, "wal.Repair must be called and followed by another ReadAll")
+	// ... and the handle that failed to read is closed first: Open holds the file locks of every segment, Repair takes the
+	// lock of the last one with a blocking call on a descriptor of its own
+	if repair != nil && readAll != nil {
+		isClose := func(x ssa.Instruction) bool {
+			ci, ok := x.(ssa.CallInstruction)
+			if !ok || callName(ci) != "Close" {
+				// a reader helper that closes the WAL when its read failed
+				if ok2 := ok && callee(ci) != nil && readers[callee(ci)]; ok2 {
+					for _, bb := range callee(ci).Blocks {
+						for _, ii := range bb.Instrs {
+							if c2, isC := ii.(ssa.CallInstruction); isC && callName(c2) == "Close" {
+								if cf := callee(c2); cf != nil && cf.Signature.Recv() != nil && namedOf(cf.Signature.Recv().Type()) == "WAL" {
+									return true
+								}
+							}
+						}
+					}
+				}
+				return false
+			}
+			cf := callee(ci)
+			return cf != nil && cf.Signature.Recv() != nil && namedOf(cf.Signature.Recv().Type()) == "WAL"
+		}
+		unclosed := false
+		for _, b := range fn.Blocks {
+			for _, in := range b.Instrs {
+				ci, ok := in.(ssa.CallInstruction)
+				if !ok || !readsWAL(ci) {
+					continue
+				}
+				if isClose(in) {
+					continue // the reader helper closes on failure itself
+				}
+				if reachesBefore(in, func(x ssa.Instruction) bool { return x == repair }, isClose) {
+					unclosed = true
+				}
+			}
+		}
+		c.Add("R12s", fnName(fn), "the WAL that failed to read is closed before wal.Repair runs", repair.Pos(), !unclosed, "a path leads from the failed read to wal.Repair with the WAL still open: Repair waits for a file lock that only the later Close releases")
+	}
 }}
 
 // R18: nothing blocks the apply loop.
@@ -2368,4 +2455,46 @@ func (c *C) reachableKeyspaceWrites(fn *ssa.Function, consts map[int][]*ssa.Cons
 		}
 	}
 	return out
+}
+
+// derivesFromParsedParam: the size depends on an integer parameter of fn (a method of a stored container, a helper) that
+// some call site in memdb binds to a parsed client integer (List.Range(start, end) from LRANGE's Atoi results).
+func (c *C) derivesFromParsedParam(v ssa.Value, fn *ssa.Function) bool {
+	if c.Facts.ExecNames[fn] != nil {
+		return false
+	}
+	found := false
+	backslice(v, func(x ssa.Value) bool {
+		if found {
+			return false
+		}
+		if prm, ok := x.(*ssa.Parameter); ok && isIntType(prm.Type()) && prm.Parent() == fn {
+			pi := -1
+			for i, q := range fn.Params {
+				if q == prm {
+					pi = i
+				}
+			}
+			for _, g := range c.P.allFuncs("memdb") {
+				for _, b := range g.Blocks {
+					for _, in := range b.Instrs {
+						ci, ok := in.(ssa.CallInstruction)
+						if !ok || callee(ci) != fn || pi < 0 || pi >= len(ci.Common().Args) {
+							continue
+						}
+						if derivesFromParse(ci.Common().Args[pi]) {
+							found = true
+						}
+					}
+				}
+			}
+		}
+		if call, isCall := x.(*ssa.Call); isCall {
+			// the result of a first-party helper that was handed the parameter (first, last, ok := l.span(start, end))
+			cf := call.Call.StaticCallee()
+			return cf != nil && firstParty(cf) && !found
+		}
+		return !found
+	})
+	return found
 }
